@@ -368,6 +368,31 @@ def run(ctx):
                     if fl != "inherit":
                         fdecl.setdefault("options", {})["wrap_" + lang] = fl
                 add(("decl", lang, libdefault, flags, flat), d)
+    # ---- (b2) the override on the block: that groups the declarations: a block in a block in a block, options on the outer
+    # one, on the middle one, on the declaration in the innermost one; each declaration follows the nearest enclosing setting
+    for lang in LANGS:
+        for libdefault in (True, False):
+            for inns in ((False,) if quick else (False, True)):
+                for flags in itertools.product(["inherit", True, False], repeat=3):
+                    fo, fi, fg = flags
+                    fns = [dict(d) for d in yaml.safe_load(FUNCS)["declarations"]]
+                    if fg != "inherit":
+                        fns[2]["options"] = {"wrap_" + lang: fg}
+                    innermost = dict(block=True, declarations=[fns[2]])
+                    inner = dict(block=True, declarations=[fns[1], innermost])
+                    if fi != "inherit":
+                        inner["options"] = {"wrap_" + lang: fi}
+                    outer = dict(block=True, declarations=[fns[0], inner])
+                    if fo != "inherit":
+                        outer["options"] = {"wrap_" + lang: fo}
+                    decls = [outer, fns[3]]
+                    if inns:
+                        decls = [dict(decl="namespace nsx", declarations=decls)]
+                    opts = {"wrap_" + l2: True for l2 in LANGS}
+                    opts["wrap_" + lang] = libdefault
+                    if lang == "c":
+                        opts["wrap_fortran"] = False
+                    add(("blk", lang, libdefault, flags, inns), dict(library="Sel", cxx_header="sel.hpp", options=opts, declarations=decls))
     # ---- (c) directory assignments
     dbase = yaml.safe_load(libs.SMALL_CXX)
     keys = ["out", "cf", "py", "lua", "yaml"]
@@ -450,6 +475,16 @@ def run(ctx):
             if seen != libdefault:
                 ctx.violation("decl-flag sibling %s" % lang, "sibling deltafour (no override, library default %s) %s in the %s output; flags %s" % (
                     libdefault, "appears" if seen else "does not appear", lang, dict(zip(names, flags))), {"tag": tag})
+        elif tag[0] == "blk":
+            _, lang, libdefault, (fo, fi, fg), inns = tag
+            first = lambda *v: next(x for x in v if x != "inherit")
+            want = {"alphaone": first(fo, libdefault), "betatwo": first(fi, fo, libdefault), "gammathree": first(fg, fi, fo, libdefault), "deltafour": libdefault}
+            for nm, on in want.items():
+                seen = appears(nm, lang, r["content"])
+                if on != seen:
+                    ctx.violation("block-flag %s %s" % (lang, "missing" if on else "present"),
+                                  "wrap_%s for %s is %s (library default %s; outer block %s, inner block %s, declaration gammathree %s%s) but the function %s in the %s output" % (
+                                      lang, nm, on, libdefault, fo, fi, fg, "; in a namespace" if inns else "", "appears" if seen else "does not appear", lang), {"tag": tag})
     # ---- (d) the upstream corpus: C and Fortran files must not change with the Python / Lua wrappers
     from .. import corpus
     ccfgs = corpus.configs(ctx.repo)
@@ -470,6 +505,7 @@ def run(ctx):
     ctx.nontrivial_n(len(res) + len(cres))
     ctx.part("library_combinations", runs=sum(1 for t in meta if t[0] == "lib"), descriptions=list(DESCS))
     ctx.part("declaration_overrides", runs=sum(1 for t in meta if t[0] == "decl"))
+    ctx.part("block_overrides", runs=sum(1 for t in meta if t[0] == "blk"), nesting=3)
     ctx.part("directory_assignments", runs=sum(1 for t in meta if t[0] == "dirs"), of=243)
     ctx.sample({"library_flags": dict(zip(LANGS, combos[3])), "description": "classes"})
     ctx.sample({"override": {"language": "python", "library_default": False, "flags": ["inherit", True, False]}})
